@@ -99,6 +99,18 @@ def run_dot(ctx, bins):
             ctx.replay(b, "codec-dot", cases, name="R2 replay dot %s %s [%s]" % (mode, what, bn))
 
 
+def run_hll(ctx, bins):
+    for w in (64, 32):
+        for mode, what in (("rt", "marshal/unmarshal x receiver width/hash, decoded sketch keeps counting"),
+                           ("union", "Union compatibility table incl. aliasing"),
+                           ("sethash", "SetHash rule"),
+                           ("corrupt", "field grid of malformed encodings")):
+            cases = ctx.gen("codec/HllState.tla", "codec/HllState.cfg", subst=dict(W=w, MODE=mode, SEED=ctx.seed, EMIT="TRUE"),
+                            name="R1+R2 gen hll%d %s (%s)" % (w, mode, what))
+            for bn, b in bins.items():
+                ctx.replay(b, "codec-hll", cases, name="R2 replay hll%d %s [%s]" % (w, mode, bn))
+
+
 def run(ctx):
     builds = [("default", "")]
     bins = {n: ctx.build(t) for n, t in builds}
@@ -107,6 +119,7 @@ def run(ctx):
     run_mat(ctx, bins)
     run_rdf(ctx, bins)
     run_dot(ctx, bins)
+    run_hll(ctx, bins)
 
     ctx.assumptions += [
         "TLC/SANY and the CommunityModules Json module are trusted",
